@@ -79,6 +79,7 @@ class X(ExprMixin, CallMixin):
             if cur is None: raise Unsupported("bare raise outside handler")
             self.raise_if(st, T, cur, s); st.pc = F; return
         v = self.ev(s.exc, st)
+        if isinstance(v, VOpt): v = self.need(st, v, "TypeError", s)
         if isinstance(v, VClass): v = VExc(v.name)
         if not isinstance(v, VExc): raise Unsupported(f"raise of {type(v).__name__}")
         if not st.dead:
